@@ -361,6 +361,14 @@ func OpenSessionSplit(first []byte, keys []ech.Key, split int) (s *Session, err 
 	} else if keys != nil {
 		opts = append(opts, ech.WithKeys(keys))
 	}
+	// every other session also passes WithDebug(nil) (an option a caller may well pass through from its own configuration),
+	// before or after the keys: it must behave exactly like no WithDebug at all
+	switch len(first) % 3 {
+	case 1:
+		opts = append(opts, ech.WithDebug(nil))
+	case 2:
+		opts = append([]ech.Option{ech.WithDebug(nil)}, opts...)
+	}
 	s.C, err = ech.NewConn(context.Background(), t, opts...)
 	return s, err, nil
 }
